@@ -1,6 +1,6 @@
 (* PatternProofs.v — C11: the formatter renders every symbol as the documented table (PatternSpec) says. *)
 From Astro Require Import Base Text CalSpec DateModel TimeModel ApiModel InstantSpec FormatModel ParseModel PatternSpec
-  DateProofs WeekProofs WeekFinal TimeProofs ClockProofs PadProofs.
+  ValueFields DateProofs WeekProofs WeekFinal TimeProofs ClockProofs OffsetProofs TextProofs PadProofs.
 
 (* ---------- the spec's padding functions are the model's ---------- *)
 Lemma dec_digits_rev fuel : forall n acc, PatternSpec.dec_digits fuel n acc = rev (digits_rev fuel n) ++ acc.
@@ -255,4 +255,314 @@ Proof.
   - rewrite Ew. wcases w Hw; rewrite ?pad_zero_padded; try (change (10 ^ (9 - 9)) with 1; rewrite Z.div_1_r); reflexivity.
   - rewrite format_zone_text by exact Hw. reflexivity.
   - rewrite format_zone_text by exact Hw. reflexivity.
+Qed.
+
+(* ================= the tokenizer: parse_format_string (unparse items) = the items' parts ================= *)
+(* the part the tokenizer produces for an item: escaped apostrophes are NUL inside the tokenizer *)
+Definition nul_apos (c : Z) : Z := if c =? 39 then 0 else c.
+Definition part_of (it : pitem) : text :=
+  match it with
+  | PField c w | PLit c w => repeat_c c (Z.to_nat w)
+  | PQuoted txt => 39 :: map nul_apos txt ++ [39]
+  | PApos k => repeat_c 0 (Z.to_nat k)
+  end.
+Definition item_first (it : pitem) : Z := match it with PField c _ | PLit c _ => c | PQuoted _ => 39 | PApos _ => 0 end.
+Definition is_run (it : pitem) : bool := match it with PField _ _ | PLit _ _ => true | _ => false end.
+Definition is_sym (c : Z) : bool := is_date_sym c || is_time_sym c.
+(* one item; a quoted text starts with a character other than an apostrophe (leading apostrophes are written as a PApos
+   item in front: same pattern text) *)
+Definition item_ok (it : pitem) : bool :=
+  match it with
+  | PField c w => (1 <=? w) && is_sym c
+  | PLit c k => (1 <=? k) && negb (is_sym c) && negb (c =? 39) && negb (c =? 0)
+  | PQuoted txt => match txt with c :: _ => negb (c =? 39) | [] => false end && negb (existsb (Z.eqb 0) txt)
+  | PApos k => 1 <=? k
+  end.
+Definition adj_ok (prev : option pitem) (it : pitem) : bool :=
+  match prev with None => true | Some p => negb (item_first p =? item_first it) && (is_run p || is_run it) end.
+Fixpoint swf (prev : option pitem) (items : list pitem) : bool :=
+  match items with [] => true | it :: tl => item_ok it && adj_ok prev it && swf (Some it) tl end.
+
+Lemma sym_not_special c : is_sym c = true -> c <> 39 /\ c <> 0.
+Proof.
+  unfold is_sym, is_date_sym, is_time_sym. cbn [existsb]. rewrite !orb_true_iff, !Z.eqb_eq. intros H. lia.
+Qed.
+Lemma item_first_run it : item_ok it = true -> is_run it = true -> item_first it <> 39 /\ item_first it <> 0.
+Proof.
+  destruct it as [c w | c k | txt | k]; cbn [is_run item_first item_ok]; try discriminate; intros H _.
+  - apply andb_true_iff in H as [_ H]. apply sym_not_special, H.
+  - rewrite !andb_true_iff, !negb_true_iff, !Z.eqb_neq in H. tauto.
+Qed.
+
+(* ---------- replace("''", NUL) ---------- *)
+Lemma rda_other c s : c <> 39 -> replace_double_apos (c :: s) = c :: replace_double_apos s.
+Proof.
+  intros H. destruct s as [|b tl]; [reflexivity|]. cbn [replace_double_apos]. unfold APOS. destruct (Z.eqb_spec c 39); [contradiction|]. reflexivity.
+Qed.
+Lemma rda_pair s : replace_double_apos (39 :: 39 :: s) = 0 :: replace_double_apos s.
+Proof. reflexivity. Qed.
+Lemma rda_single c s : c <> 39 -> replace_double_apos (39 :: c :: s) = 39 :: replace_double_apos (c :: s).
+Proof. intros H. cbn [replace_double_apos]. unfold APOS. cbn [Z.eqb Pos.eqb andb]. destruct (Z.eqb_spec c 39); [contradiction|]. reflexivity. Qed.
+Lemma rda_run c k s : c <> 39 -> replace_double_apos (repeat_c c k ++ s) = repeat_c c k ++ replace_double_apos s.
+Proof. intros H. induction k as [|k IH]; cbn [repeat_c app]; [reflexivity|]. rewrite rda_other by exact H. rewrite IH. reflexivity. Qed.
+Lemma rda_apos k s : replace_double_apos (repeat_c 39 (2 * k) ++ s) = repeat_c 0 k ++ replace_double_apos s.
+Proof.
+  induction k as [|k IH]; [reflexivity|]. replace (2 * S k)%nat with (S (S (2 * k))) by lia. cbn [repeat_c app]. rewrite rda_pair, IH. reflexivity.
+Qed.
+Definition esc (txt : text) : text := flat_map (fun c => if c =? 39 then [39; 39] else [c]) txt.
+Definition next_ok (s : text) : Prop := match s with [] => True | c :: _ => c <> 39 end.
+Lemma rda_esc txt : forall s, next_ok s -> replace_double_apos (esc txt ++ 39 :: s) = map nul_apos txt ++ 39 :: replace_double_apos s.
+Proof.
+  induction txt as [|c txt IH]; intros s Hs; cbn [esc flat_map map app].
+  - destruct s as [|b tl]; [reflexivity|]. cbn [next_ok] in Hs. rewrite rda_single by exact Hs. reflexivity.
+  - fold (esc txt). unfold nul_apos at 1. destruct (Z.eqb_spec c 39) as [->|Hc].
+    + cbn [app]. rewrite rda_pair, IH by exact Hs. reflexivity.
+    + cbn [app]. rewrite rda_other by exact Hc. rewrite IH by exact Hs. reflexivity.
+Qed.
+
+Lemma unparse_cons it tl : unparse (it :: tl) = unparse_item it ++ unparse tl. Proof. reflexivity. Qed.
+Lemma next_ok_unparse it tl prev : swf prev (it :: tl) = true -> is_run it = true -> next_ok (unparse (it :: tl)).
+Proof.
+  intros H Hr. cbn [swf] in H. rewrite !andb_true_iff in H. destruct H as ((Hi & _) & _).
+  destruct (item_first_run it Hi Hr) as [A _]. destruct it as [c w | c k | txt | k]; try discriminate; cbn [item_first] in A.
+  - cbn [item_ok] in Hi. apply andb_true_iff in Hi as [Hw _]. apply Z.leb_le in Hw. rewrite unparse_cons. cbn [unparse_item].
+    destruct (Z.to_nat w) eqn:E; [lia|]. cbn [repeat_c app next_ok]. exact A.
+  - cbn [item_ok] in Hi. rewrite !andb_true_iff in Hi. destruct Hi as (((Hw & _) & _) & _). apply Z.leb_le in Hw. rewrite unparse_cons. cbn [unparse_item].
+    destruct (Z.to_nat k) eqn:E; [lia|]. cbn [repeat_c app next_ok]. exact A.
+Qed.
+
+Theorem rda_unparse : forall items prev, swf prev items = true ->
+  replace_double_apos (unparse items) = flat_map part_of items.
+Proof.
+  induction items as [|it tl IH]; intros prev H; [reflexivity|]. pose proof H as H0. cbn [swf] in H. rewrite !andb_true_iff in H. destruct H as ((Hi & Ha) & Ht).
+  rewrite unparse_cons. cbn [flat_map]. rewrite <- (IH (Some it) Ht).
+  destruct it as [c w | c k | txt | k]; cbn [unparse_item part_of].
+  - apply rda_run. cbn [item_ok] in Hi. apply andb_true_iff in Hi as [_ Hs]. apply sym_not_special in Hs. tauto.
+  - apply rda_run. cbn [item_ok] in Hi. rewrite !andb_true_iff, !negb_true_iff, !Z.eqb_neq in Hi. tauto.
+  - (* quoted: the next item is a run *)
+    cbn [item_ok] in Hi. apply andb_true_iff in Hi as [Hh _]. destruct txt as [|c0 txt0] eqn:Et; [discriminate|]. rewrite <- Et.
+    apply negb_true_iff, Z.eqb_neq in Hh.
+    assert (Hn : next_ok (unparse tl)).
+    { destruct tl as [|nx tl']; [exact I|]. pose proof Ht as Ht'. cbn [swf adj_ok] in Ht'. rewrite !andb_true_iff in Ht'. destruct Ht' as ((_ & (_ & Hr)) & _).
+      cbn [is_run orb] in Hr. apply (next_ok_unparse nx tl' (Some (PQuoted txt))); [rewrite Et; exact Ht | exact Hr]. }
+    change (39 :: flat_map (fun c : Z => if c =? 39 then [39; 39] else [c]) txt ++ [39]) with (39 :: esc txt ++ [39]).
+    cbn [app]. rewrite <- app_assoc. cbn [app]. rewrite Et at 1. cbn [esc flat_map]. destruct (Z.eqb_spec c0 39); [contradiction|]. cbn [app].
+    rewrite rda_single by assumption. rewrite rda_other by assumption. fold (esc txt0). rewrite (rda_esc txt0 _ Hn).
+    rewrite Et. cbn [map app]. rewrite <- app_assoc. cbn [app].
+    replace (nul_apos c0) with c0 by (unfold nul_apos; destruct (Z.eqb_spec c0 39); [contradiction | reflexivity]). reflexivity.
+  - cbn [item_ok] in Hi. apply Z.leb_le in Hi. replace (Z.to_nat (2 * k)) with (2 * Z.to_nat k)%nat by lia. apply rda_apos.
+Qed.
+
+(* ---------- the run-length tokenizer ---------- *)
+Lemma repeat_c_snoc c k : repeat_c c k ++ [c] = c :: repeat_c c k.
+Proof. induction k as [|k IH]; cbn [repeat_c app]; [reflexivity|]. rewrite IH. reflexivity. Qed.
+Lemma rev_repeat c k : rev (repeat_c c k) = repeat_c c k.
+Proof. induction k as [|k IH]; cbn [repeat_c rev]; [reflexivity|]. rewrite IH. apply repeat_c_snoc. Qed.
+
+Definition head_ne (parts : list text) (c : Z) : Prop :=
+  match parts with [] => True | p :: _ => match rev p with f :: _ => f <> c | [] => True end end.
+
+Lemma tok_run_more c : c <> 39 -> forall k j s ps,
+  tokenize (repeat_c c k ++ s) false (repeat_c c (S j) :: ps) = tokenize s false (repeat_c c (S j + k) :: ps).
+Proof.
+  intros Hc. induction k as [|k IH]; intros j s ps.
+  - cbn [repeat_c app]. rewrite Nat.add_0_r. reflexivity.
+  - change (repeat_c c (S k) ++ s) with (c :: (repeat_c c k ++ s)). cbn [tokenize]. unfold APOS. destruct (Z.eqb_spec c 39); [contradiction|].
+    rewrite rev_repeat. cbn [orb]. change (repeat_c c (S j)) with (c :: repeat_c c j) at 1. cbv iota beta. rewrite Z.eqb_refl.
+    change (c :: repeat_c c (S j)) with (repeat_c c (S (S j))).
+    rewrite IH. replace (S (S j) + k)%nat with (S j + S k)%nat by lia. reflexivity.
+Qed.
+Lemma tok_run_start c k s parts : c <> 39 -> (1 <= k)%nat -> head_ne parts c ->
+  tokenize (repeat_c c k ++ s) false parts = tokenize s false (repeat_c c k :: parts).
+Proof.
+  intros Hc Hk Hh. destruct k as [|k]; [lia|]. change (repeat_c c (S k) ++ s) with (c :: (repeat_c c k ++ s)). cbn [tokenize]. unfold APOS. destruct (Z.eqb_spec c 39); [contradiction|].
+  destruct parts as [|p ps].
+  - change [[c]] with [repeat_c c 1]. rewrite (tok_run_more c Hc k 0 s []). reflexivity.
+  - cbn [head_ne] in Hh. cbn [orb]. destruct (rev p) as [|f r] eqn:Er.
+    + change ([c] :: p :: ps) with (repeat_c c 1 :: p :: ps). rewrite (tok_run_more c Hc k 0 s (p :: ps)). reflexivity.
+    + destruct (Z.eqb_spec f c); [contradiction|]. change ([c] :: p :: ps) with (repeat_c c 1 :: p :: ps). rewrite (tok_run_more c Hc k 0 s (p :: ps)). reflexivity.
+Qed.
+Lemma tok_esc_body body : forall s p ps, Forall (fun c => c <> 39) body ->
+  tokenize (body ++ s) true (p :: ps) = tokenize s true ((rev body ++ p) :: ps).
+Proof.
+  induction body as [|c body IH]; intros s p ps Hb; [reflexivity|]. inversion Hb as [|? ? Hc Hb']; subst.
+  cbn [app tokenize]. unfold APOS. destruct (Z.eqb_spec c 39); [contradiction|]. cbn [orb]. rewrite IH by exact Hb'.
+  cbn [rev]. rewrite <- app_assoc. reflexivity.
+Qed.
+Lemma tok_quoted body s parts : Forall (fun c => c <> 39) body ->
+  tokenize (39 :: body ++ 39 :: s) false parts = tokenize s false ((39 :: rev body ++ [39]) :: parts).
+Proof.
+  intros Hb. cbn [tokenize]. unfold APOS. cbn [Z.eqb Pos.eqb negb]. rewrite tok_esc_body by exact Hb.
+  cbn [tokenize]. unfold APOS. cbn [Z.eqb Pos.eqb negb]. reflexivity.
+Qed.
+
+Definition start_parts (prev : option pitem) (ps : list text) : list text :=
+  match prev with None => [] | Some p => rev (part_of p) :: ps end.
+Lemma part_of_head it : item_ok it = true -> exists t, part_of it = item_first it :: t.
+Proof.
+  destruct it as [c w | c k | txt | k]; cbn [item_ok part_of item_first]; intros H.
+  - apply andb_true_iff in H as [Hw _]. apply Z.leb_le in Hw. destruct (Z.to_nat w) eqn:E; [lia|]. eexists; reflexivity.
+  - rewrite !andb_true_iff in H. destruct H as (((Hw & _) & _) & _). apply Z.leb_le in Hw. destruct (Z.to_nat k) eqn:E; [lia|]. eexists; reflexivity.
+  - eexists; reflexivity.
+  - apply Z.leb_le in H. destruct (Z.to_nat k) eqn:E; [lia|]. eexists; reflexivity.
+Qed.
+Lemma head_ne_start prev ps it : (forall p, prev = Some p -> item_ok p = true) -> adj_ok prev it = true ->
+  head_ne (start_parts prev ps) (item_first it).
+Proof.
+  intros Hp Ha. destruct prev as [p|]; [|exact I]. cbn [start_parts head_ne]. rewrite rev_involutive.
+  destruct (part_of_head p (Hp p eq_refl)) as [t ->]. cbn [adj_ok] in Ha. apply andb_true_iff in Ha as [Ha _].
+  apply negb_true_iff, Z.eqb_neq in Ha. exact Ha.
+Qed.
+
+Lemma tok_items : forall items prev ps, swf prev items = true -> (forall p, prev = Some p -> item_ok p = true) ->
+  tokenize (flat_map part_of items) false (start_parts prev ps) = rev (map (fun it => rev (part_of it)) items) ++ start_parts prev ps.
+Proof.
+  induction items as [|it tl IH]; intros prev ps H Hp; [reflexivity|].
+  cbn [swf] in H. rewrite !andb_true_iff in H. destruct H as ((Hi & Ha) & Ht).
+  cbn [flat_map map rev]. rewrite <- app_assoc. cbn [app].
+  assert (Step : tokenize (part_of it ++ flat_map part_of tl) false (start_parts prev ps)
+                 = tokenize (flat_map part_of tl) false (start_parts (Some it) (start_parts prev ps))).
+  { pose proof (head_ne_start prev ps it Hp Ha) as Hh. cbn [start_parts].
+    destruct it as [c w | c k | txt | k]; cbn [part_of item_first] in *.
+    - cbn [item_ok] in Hi. apply andb_true_iff in Hi as [Hw Hs]. apply Z.leb_le in Hw. apply sym_not_special in Hs.
+      rewrite rev_repeat. apply tok_run_start; [tauto | lia | exact Hh].
+    - cbn [item_ok] in Hi. rewrite !andb_true_iff, !negb_true_iff, !Z.eqb_neq in Hi. destruct Hi as (((Hw & _) & H39) & _). apply Z.leb_le in Hw.
+      rewrite rev_repeat. apply tok_run_start; [exact H39 | lia | exact Hh].
+    - cbn [app]. rewrite <- app_assoc. cbn [app]. rewrite tok_quoted.
+      + cbn [rev]. rewrite rev_app_distr. cbn [rev app]. reflexivity.
+      + apply Forall_forall. intros x Hx. apply in_map_iff in Hx as (c & <- & _). unfold nul_apos. destruct (Z.eqb_spec c 39); [discriminate | assumption].
+    - cbn [item_ok] in Hi. apply Z.leb_le in Hi. rewrite rev_repeat. apply tok_run_start; [discriminate | lia | exact Hh]. }
+  rewrite Step. rewrite (IH (Some it) (start_parts prev ps) Ht); [reflexivity|]. intros p E. injection E as <-. exact Hi.
+Qed.
+
+Theorem tokenizer_items items : swf None items = true -> parse_format_string (unparse items) = map part_of items.
+Proof.
+  intros H. unfold parse_format_string. rewrite (rda_unparse items None H).
+  pose proof (tok_items items None [] H ltac:(discriminate)) as T. cbn [start_parts] in T. rewrite T, app_nil_r.
+  rewrite map_rev, rev_involutive, map_map. apply map_ext. intros it. apply rev_involutive.
+Qed.
+
+(* ================= every item is rendered as the table says ================= *)
+Lemma date_symbol_eq c : is_date_symbol c = is_date_sym c.
+Proof. unfold is_date_symbol, is_date_sym. cbn [existsb]. rewrite orb_false_r, !orb_assoc. reflexivity. Qed.
+Lemma time_symbol_eq c : is_time_symbol c = is_time_sym c.
+Proof. unfold is_time_symbol, is_time_sym. cbn [existsb]. rewrite orb_false_r, !orb_assoc. reflexivity. Qed.
+
+Lemma fdp_other c w d : 1 <= w -> is_date_sym c = false -> format_date_part (repeat_c c (Z.to_nat w)) d = Ok (repeat_c c (Z.to_nat w)).
+Proof.
+  intros Hw H. rewrite fdp_run by exact Hw. cbv zeta. unfold is_date_sym in H. cbn [existsb] in H. rewrite !orb_false_iff in H.
+  destruct H as (H1 & H2 & H3 & H4 & H5 & H6 & H7 & H8 & _). rewrite H1, H2, H3, H4, H5, H6, H7, H8. reflexivity.
+Qed.
+Lemma ftp_other c w n off : 1 <= w -> is_time_sym c = false -> format_time_part (repeat_c c (Z.to_nat w)) n off = Ok (repeat_c c (Z.to_nat w)).
+Proof.
+  intros Hw H. rewrite ftp_run by exact Hw. cbv zeta. unfold is_time_sym in H. cbn [existsb] in H. rewrite !orb_false_iff in H.
+  destruct H as (H1 & H2 & H3 & H4 & H5 & H6 & H7 & H8 & H9 & H10 & H11 & _). rewrite H1, H2, H3, H4, H5, H6, H7, H8, H9, H10, H11.
+  destruct (nanos_to_time n) as [[h m] s]. reflexivity.
+Qed.
+
+(* the function each format() method applies to a part *)
+Definition kind_fun (kind d n off : Z) : text -> res text :=
+  match kind with 0 => fun p => format_date_part p d | 1 => fun p => format_time_part p n off | _ => fun p => format_part p d n off end.
+
+Lemma run_render kind F d n off c w : date_fields_agree F d -> time_fields_agree F n off -> 1 <= w ->
+  kind_fun kind d n off (repeat_c c (Z.to_nat w)) = Ok (if understands kind c then render_field F c w else repeat_c c (Z.to_nat w)).
+Proof.
+  intros Ad At Hw. unfold kind_fun, understands. destruct kind as [|[p|p|]|p].
+  - destruct (is_date_sym c) eqn:E; [apply date_field_render; assumption | apply fdp_other; assumption].
+  - unfold format_part. cbv zeta. rewrite first_char_repeat by lia. rewrite date_symbol_eq, time_symbol_eq.
+    destruct (is_date_sym c) eqn:E; cbn [orb]; [apply date_field_render; assumption|].
+    destruct (is_time_sym c) eqn:E2; [apply time_field_render; assumption | reflexivity].
+  - unfold format_part. cbv zeta. rewrite first_char_repeat by lia. rewrite date_symbol_eq, time_symbol_eq.
+    destruct (is_date_sym c) eqn:E; cbn [orb]; [apply date_field_render; assumption|].
+    destruct (is_time_sym c) eqn:E2; [apply time_field_render; assumption | reflexivity].
+  - destruct (is_time_sym c) eqn:E; [apply time_field_render; assumption | apply ftp_other; assumption].
+  - unfold format_part. cbv zeta. rewrite first_char_repeat by lia. rewrite date_symbol_eq, time_symbol_eq.
+    destruct (is_date_sym c) eqn:E; cbn [orb]; [apply date_field_render; assumption|].
+    destruct (is_time_sym c) eqn:E2; [apply time_field_render; assumption | reflexivity].
+Qed.
+
+Lemma repeat_c_map f c k : map f (repeat_c c k) = repeat_c (f c) k.
+Proof. induction k as [|k IH]; cbn [repeat_c map]; [reflexivity|]. rewrite IH. reflexivity. Qed.
+
+Theorem part_render kind F d n off it : date_fields_agree F d -> time_fields_agree F n off -> item_ok it = true ->
+  render_part (kind_fun kind d n off) (part_of it) = Ok (render_item kind F it).
+Proof.
+  intros Ad At Hi. destruct (part_of_head it Hi) as [t Eh]. unfold render_part. rewrite Eh. cbn [first_char]. rewrite <- Eh.
+  destruct it as [c w | c k | txt | k]; cbn [item_first part_of render_item item_ok] in *.
+  - apply andb_true_iff in Hi as [Hw Hs]. apply Z.leb_le in Hw. apply sym_not_special in Hs. unfold NUL, APOS.
+    destruct (Z.eqb_spec c 0); [lia|]. destruct (Z.eqb_spec c 39); [lia|]. apply run_render; assumption.
+  - rewrite !andb_true_iff, !negb_true_iff in Hi. destruct Hi as (((Hw & Hs) & H39) & H0). apply Z.leb_le in Hw. unfold NUL, APOS. rewrite H0, H39.
+    rewrite (run_render kind F d n off c k Ad At Hw). unfold is_sym in Hs. apply orb_false_iff in Hs as [Hs1 Hs2].
+    unfold understands. destruct kind as [|[p|p|]|p]; rewrite ?Hs1, ?Hs2; reflexivity.
+  - unfold NUL, APOS. cbn [Z.eqb Pos.eqb]. f_equal. unfold unquote_part. cbv zeta.
+    assert (Hc : (1 <? char_count (39 :: map nul_apos txt ++ [39])) = true).
+    { unfold char_count. cbn [length]. rewrite app_length. cbn [length]. apply Z.ltb_lt. lia. }
+    rewrite Hc. change (39 :: map nul_apos txt ++ [39]) with ((39 :: map nul_apos txt) ++ [39]) at 1. rewrite rev_app_distr. cbn [rev app].
+    unfold APOS. cbn [Z.eqb Pos.eqb andb tl]. rewrite removelast_last, map_map.
+    apply andb_true_iff in Hi as [_ H0]. apply negb_true_iff in H0.
+    rewrite <- (map_id txt) at 2. apply map_ext_in. intros c Hin. unfold nul_apos, NUL.
+    destruct (Z.eqb_spec c 39) as [->|]; [reflexivity|]. destruct (Z.eqb_spec c 0) as [->|]; [|reflexivity].
+    exfalso. assert (X : existsb (Z.eqb 0) txt = true) by (apply existsb_exists; exists 0; split; [exact Hin | reflexivity]). congruence.
+  - apply Z.leb_le in Hi. unfold NUL. cbn [Z.eqb]. f_equal. rewrite repeat_c_map. reflexivity.
+Qed.
+
+Lemma concat_res_oks (l : list text) : concat_res (map (@Ok text) l) = Ok (concat l).
+Proof. induction l as [|a l IH]; cbn [map concat_res concat]; [reflexivity|]. rewrite IH. reflexivity. Qed.
+Lemma swf_items_ok items : forall prev, swf prev items = true -> Forall (fun it => item_ok it = true) items.
+Proof.
+  induction items as [|it tl IH]; intros prev H; [constructor|]. cbn [swf] in H. rewrite !andb_true_iff in H. destruct H as ((Hi & _) & Ht).
+  constructor; [exact Hi | apply (IH (Some it) Ht)].
+Qed.
+
+(* the whole pattern: tokenizer and renderer composed *)
+Theorem format_items kind F d n off items : date_fields_agree F d -> time_fields_agree F n off -> swf None items = true ->
+  concat_res (map (render_part (kind_fun kind d n off)) (parse_format_string (unparse items))) = Ok (render kind F items).
+Proof.
+  intros Ad At H. rewrite (tokenizer_items items H), map_map.
+  assert (E : map (fun it => render_part (kind_fun kind d n off) (part_of it)) items = map (@Ok text) (map (render_item kind F) items)).
+  { rewrite map_map. apply map_ext_in. intros it Hin. apply part_render; try assumption.
+    pose proof (swf_items_ok items None H) as Fa. rewrite Forall_forall in Fa. apply Fa, Hin. }
+  rewrite E, concat_res_oks. unfold render. rewrite flat_map_concat_map. reflexivity.
+Qed.
+
+(* ---------- the three format() methods ---------- *)
+Lemma fields_date_agree d clock off : date_fields_agree (fields_of_day d clock off) d.
+Proof. unfold date_fields_agree, fields_of_day. destruct (days_to_date d) as [[y m] dd]. cbn. repeat split; reflexivity. Qed.
+Lemma fields_time_agree d n off : 0 <= n < NANOS_PER_DAY -> time_fields_agree (fields_of_day d n off) n off.
+Proof. intros H. unfold time_fields_agree, fields_of_day. destruct (days_to_date d) as [[y m] dd]. cbn [vf_hour vf_minute vf_second vf_subsec vf_offset]. repeat split; try reflexivity; lia. Qed.
+
+Theorem date_format_items d items : swf None items = true ->
+  date_format d (unparse items) = Ok (render 0 (fields_of_day d 0 0) items).
+Proof.
+  intros H. unfold date_format. apply (format_items 0 (fields_of_day d 0 0) d 0 0 items); [apply fields_date_agree | | exact H].
+  apply fields_time_agree. unfold NANOS_PER_DAY. lia.
+Qed.
+Theorem time_format_items t items : Inv_tm t -> swf None items = true ->
+  time_format t (unparse items) = Ok (render 1 (fields_of_day 0 ((tm_nanos t + tm_off t * NANOS_PER_SEC) mod NANOS_PER_DAY) (tm_off t)) items).
+Proof.
+  intros [Hn Ho] H. unfold time_format. cbv zeta. rewrite (add_offset_to_nanos_spec (tm_nanos t) (tm_off t) Hn Ho). unfold D.
+  apply (format_items 1 _ 0 _ (tm_off t) items); [apply fields_date_agree | | exact H].
+  apply fields_time_agree. apply Z.mod_pos_bound. unfold NANOS_PER_DAY. lia.
+Qed.
+Theorem dt_format_items v items : Valid_dt v -> swf None items = true ->
+  dt_format v (unparse items) =
+  Ok (render 2 (fields_of_day (local_instant v / NANOS_PER_DAY) (local_instant v mod NANOS_PER_DAY) (dt_off v)) items).
+Proof.
+  intros [I L] H. unfold dt_format. cbv zeta. unfold add_offset_to_dn. rewrite (days_nanos_to_nanos_spec (dt_days v) (dt_nanos v)).
+  destruct (split_ok _ L) as [E _]. unfold local_instant, instant in E. rewrite E. cbn [unwrap bind]. unfold D.
+  apply (format_items 2 _ _ _ (dt_off v) items); [apply fields_date_agree | | exact H].
+  apply fields_time_agree. apply Z.mod_pos_bound. unfold NANOS_PER_DAY. lia.
+Qed.
+
+(* the strict item grammar generates every pattern the oracle's grammar does, and is contained in it *)
+Lemma swf_wf : forall items prev, swf prev items = true -> wf_items items = true.
+Proof.
+  induction items as [|it tl IH]; intros prev H; [reflexivity|]. pose proof H as H0. cbn [swf] in H. rewrite !andb_true_iff in H. destruct H as ((Hi & _) & Ht).
+  cbn [wf_items]. rewrite (IH (Some it) Ht), andb_true_r. apply andb_true_iff. split.
+  - destruct it as [c w | c k | txt | k]; cbn [item_ok] in Hi; try exact Hi.
+    destruct txt as [|c0 txt0]; [discriminate|]. apply andb_true_iff in Hi as [Hh H0']. rewrite H0'. cbn [existsb]. rewrite Hh. reflexivity.
+  - destruct tl as [|nx tl']; [reflexivity|]. cbn [swf adj_ok] in Ht. rewrite !andb_true_iff in Ht. destruct Ht as ((Hn & (Hne & Hr)) & _).
+    apply negb_true_iff in Hne.
+    destruct it as [c w | c k | txt | k], nx as [c' w' | c' k' | txt' | k']; cbn [item_char item_first is_run orb] in *; try reflexivity; try discriminate;
+    rewrite Hne; reflexivity.
 Qed.
